@@ -25,3 +25,114 @@ package stateful
 //@   ensures typeis(result, *expression) && as(result, *expression) != nil && fresh(as(result, *expression))
 //@   ensures as(result, *expression).nodeEvaluator == se.nodeEvaluator
 //@   ensures fresh(as(result, *expression).executionState.Funcs) && as(result, *expression).executionState.Funcs != se.executionState.Funcs
+
+// ---------------------------------------------------------------- evaluation_funcs.go (C04)
+
+// Operand evaluators are arbitrary (stateful functions may change any state): no frame is
+// assumed for them. Assumed of every evaluator: a regex evaluator that reports no error
+// returns a compiled regex.
+//@ func (NodeEvaluator).EvalInt
+//@   trusted
+//@ func (NodeEvaluator).EvalFloat
+//@   trusted
+//@ func (NodeEvaluator).EvalString
+//@   trusted
+//@ func (NodeEvaluator).EvalBool
+//@   trusted
+//@ func (NodeEvaluator).EvalDuration
+//@   trusted
+//@ func (NodeEvaluator).EvalTime
+//@   trusted
+//@ func (NodeEvaluator).EvalRegex
+//@   trusted
+//@   ensures result1 == nil ==> result0 != nil
+
+// The shared result values of the short-circuit paths keep their initializer values.
+//@ constglobal boolTrueResultContainer boolFalseResultContainer emptyResultContainer
+
+// The operator x type table. One contract schema, instantiated for every entry of the table as
+// it stands in the source: the entry for (op, L, R)
+//   - evaluates the left operand as an L and, unless that failed or the operator short-circuits
+//     (AND with a false left, OR with a true left), the right operand as an R, nothing else;
+//   - reports an operand's error as an *ErrSide for that side, carrying that error;
+//   - reports an arithmetic fault (integer or duration division/modulo by zero) as an error;
+//   - otherwise returns, in the container field of the documented result type, the reference
+//     value below (TICKscript's typed semantics: no implicit int/float coercion for arithmetic;
+//     comparisons between int and float compare as floats; duration scaled by int or float).
+// An entry for a type pair that the reference table does not list fails its `documented` clause.
+//@ table evaluationFuncs f
+//@   props C04
+//@   let LE = select ${leftType} { ast.TInt => EvalInt ; ast.TFloat => EvalFloat ; ast.TString => EvalString ; ast.TBool => EvalBool ; ast.TRegex => EvalRegex ; ast.TDuration => EvalDuration ; ast.TTime => EvalTime }
+//@   let RE = select ${rightType} { ast.TInt => EvalInt ; ast.TFloat => EvalFloat ; ast.TString => EvalString ; ast.TBool => EvalBool ; ast.TRegex => EvalRegex ; ast.TDuration => EvalDuration ; ast.TTime => EvalTime }
+//@   let L = callresult(leftNode.${LE}, 0)
+//@   let LERR = callresult(leftNode.${LE}, 1)
+//@   let R = callresult(rightNode.${RE}, 0)
+//@   let RERR = callresult(rightNode.${RE}, 1)
+//@   let SHORT = select ${operator} { ast.TokenAnd => !${L} ; ast.TokenOr => ${L} ; * => false }
+//@   let FAULT = select ${operator} ${leftType} ${rightType} {
+//@       ast.TokenDiv ast.TInt ast.TInt => ${R} == 0 ;
+//@       ast.TokenMod ast.TInt ast.TInt => ${R} == 0 ;
+//@       ast.TokenDiv ast.TDuration ast.TInt => ${R} == 0 ;
+//@       ast.TokenDiv ast.TDuration ast.TDuration => ${R} == 0 ;
+//@       * => false }
+//@   let SAME = select ${leftType} ${rightType} {
+//@       ast.TInt ast.TInt => num ; ast.TFloat ast.TFloat => num ; ast.TInt ast.TFloat => mixed ; ast.TFloat ast.TInt => mixed ;
+//@       ast.TString ast.TString => str ; ast.TBool ast.TBool => bool ; ast.TDuration ast.TDuration => dur ;
+//@       ast.TString ast.TRegex => regex ; ast.TDuration ast.TInt => durint ; ast.TInt ast.TDuration => intdur ;
+//@       ast.TDuration ast.TFloat => durfloat ; ast.TFloat ast.TDuration => floatdur ; * => other }
+//@   let LF = select ${leftType} { ast.TInt => float64(${L}) ; * => ${L} }
+//@   let RF = select ${rightType} { ast.TInt => float64(${R}) ; * => ${R} }
+//@   let VAL = select ${operator} ${SAME} {
+//@       ast.TokenAnd bool => ${L} && ${R} ;
+//@       ast.TokenOr bool => ${L} || ${R} ;
+//@       ast.TokenEqual bool => ${L} == ${R} ;
+//@       ast.TokenNotEqual bool => ${L} != ${R} ;
+//@       ast.TokenEqual num => ${L} == ${R} ;          ast.TokenEqual mixed => ${LF} == ${RF} ;
+//@       ast.TokenNotEqual num => ${L} != ${R} ;       ast.TokenNotEqual mixed => ${LF} != ${RF} ;
+//@       ast.TokenLess num => ${L} < ${R} ;            ast.TokenLess mixed => ${LF} < ${RF} ;
+//@       ast.TokenLessEqual num => ${L} <= ${R} ;      ast.TokenLessEqual mixed => ${LF} <= ${RF} ;
+//@       ast.TokenGreater num => ${L} > ${R} ;         ast.TokenGreater mixed => ${LF} > ${RF} ;
+//@       ast.TokenGreaterEqual num => ${L} >= ${R} ;   ast.TokenGreaterEqual mixed => ${LF} >= ${RF} ;
+//@       ast.TokenEqual str => ${L} == ${R} ;          ast.TokenNotEqual str => ${L} != ${R} ;
+//@       ast.TokenLess str => ${L} < ${R} ;            ast.TokenLessEqual str => ${L} <= ${R} ;
+//@       ast.TokenGreater str => ${L} > ${R} ;         ast.TokenGreaterEqual str => ${L} >= ${R} ;
+//@       ast.TokenEqual dur => ${L} == ${R} ;          ast.TokenNotEqual dur => ${L} != ${R} ;
+//@       ast.TokenLess dur => ${L} < ${R} ;            ast.TokenLessEqual dur => ${L} <= ${R} ;
+//@       ast.TokenGreater dur => ${L} > ${R} ;         ast.TokenGreaterEqual dur => ${L} >= ${R} ;
+//@       ast.TokenRegexEqual regex => ${R}.MatchString(${L}) ;
+//@       ast.TokenRegexNotEqual regex => !${R}.MatchString(${L}) ;
+//@       ast.TokenPlus num => ${L} + ${R} ;            ast.TokenMinus num => ${L} - ${R} ;
+//@       ast.TokenMult num => ${L} * ${R} ;            ast.TokenDiv num => ${L} / ${R} ;
+//@       ast.TokenMod num => ${L} % ${R} ;
+//@       ast.TokenPlus str => ${L} + ${R} ;
+//@       ast.TokenPlus dur => ${L} + ${R} ;            ast.TokenMinus dur => ${L} - ${R} ;
+//@       ast.TokenDiv dur => int64(${L} / ${R}) ;
+//@       ast.TokenMult durint => ${L} * time.Duration(${R}) ;
+//@       ast.TokenMult intdur => time.Duration(${L}) * ${R} ;
+//@       ast.TokenDiv durint => ${L} / time.Duration(${R}) ;
+//@       ast.TokenMult durfloat => time.Duration(float64(${L}) * ${R}) ;
+//@       ast.TokenMult floatdur => time.Duration(${L} * float64(${R})) ;
+//@       ast.TokenDiv durfloat => time.Duration(float64(${L}) / ${R}) ;
+//@       * => undocumented }
+//@   let DOCUMENTED = select ${VAL} { undocumented => false ; * => true }
+//@   let RT = select ${operator} ${SAME} {
+//@       ast.TokenPlus num => ${leftType} ; ast.TokenMinus num => ${leftType} ; ast.TokenMult num => ${leftType} ; ast.TokenDiv num => ${leftType} ; ast.TokenMod num => ast.TInt ;
+//@       ast.TokenPlus str => ast.TString ; ast.TokenPlus dur => ast.TDuration ; ast.TokenMinus dur => ast.TDuration ; ast.TokenDiv dur => ast.TInt ;
+//@       ast.TokenMult durint => ast.TDuration ; ast.TokenMult intdur => ast.TDuration ; ast.TokenDiv durint => ast.TDuration ;
+//@       ast.TokenMult durfloat => ast.TDuration ; ast.TokenMult floatdur => ast.TDuration ; ast.TokenDiv durfloat => ast.TDuration ;
+//@       * => ast.TBool }
+//@   let OUT = select ${RT} {
+//@       ast.TBool => result0.IsBoolValue && result0.BoolValue == (${VAL}) ;
+//@       ast.TInt => result0.IsInt64Value && result0.Int64Value == (${VAL}) ;
+//@       ast.TFloat => result0.IsFloat64Value && result0.Float64Value == (${VAL}) ;
+//@       ast.TString => result0.IsStringValue && result0.StringValue == (${VAL}) ;
+//@       ast.TDuration => result0.IsDurationValue && result0.DurationValue == (${VAL}) }
+//@   requires leftNode != nil && rightNode != nil
+//@   ensures [documented] ${DOCUMENTED} && ${returnType} == ${RT}
+//@   ensures [left-evaluated] called(leftNode.${LE})
+//@   ensures [left-error] ${LERR} != nil ==> result1 != nil && result1.IsLeft && !result1.IsRight && result1.error == ${LERR} && !called(rightNode.${RE})
+//@   ensures [short-circuit] ${LERR} == nil && (${SHORT}) ==> result1 == nil && !called(rightNode.${RE}) && ${OUT}
+//@   ensures [right-evaluated] ${LERR} == nil && !(${SHORT}) ==> called(rightNode.${RE})
+//@   ensures [right-error] ${LERR} == nil && !(${SHORT}) && ${RERR} != nil ==> result1 != nil && result1.IsRight && !result1.IsLeft && result1.error == ${RERR}
+//@   ensures [fault-reported] ${LERR} == nil && !(${SHORT}) && ${RERR} == nil && (${FAULT}) ==> result1 != nil
+//@   ensures [value] ${LERR} == nil && !(${SHORT}) && ${RERR} == nil && !(${FAULT}) ==> result1 == nil && ${OUT}
